@@ -2,6 +2,20 @@
 """Imports confirmed seeded changes from /tmp/seeded-out into /verif/seeded/<prop>-<variant>/."""
 import json, os, re, shutil, sys
 SUMMARY = {
+ "C09-G": ("fold_impl hands off to a new fold_wide when >= 8 MiB of control bytes lie ahead; its line_is_vacant helper never tests the last group of a 64-byte line", "fold/for_each/count on the borrowing iterators of a sparse table of >= 2^24 buckets: about a quarter of the elements are not visited"),
+ "C01-G": ("rehash_in_place swaps buckets through a hand-rolled 256-byte block buffer whose remainder is swapped at offset 0", "element types larger than 256 bytes, a tombstone-saturated table at most half full and a probe sequence that wraps (the swap branch of the in-place rehash)"),
+ "C02-G": ("RawTable::get_many_mut compares bucket pointers only when the two lookups' hashes are equal", "two requests with different hashes that resolve to one bucket (HashTable closures, or a lookup type whose Hash is finer than its Equivalent)"),
+ "C02-H": ("RawDrain::iter() (behind Debug for Drain) returns the table's iterator instead of a clone of the drain's own", "Debug-formatting a partially consumed Drain: the user's Debug impl is handed slots whose elements were already moved out"),
+ "C03-G": ("RawDrain keeps the table in place (pointer + reset in Drop) instead of moving it out", "a Drain leaked with mem::forget after yielding elements: the collection still holds the moved-out elements and drops them again"),
+ "C04-G": ("RawTable::clone_from with different bucket counts swaps the new table in first and drops the old elements afterwards from a guard", "a Drop panic of an old element during clone_from between maps with differently seeded hashers: the target holds the source's layout but keeps its own hasher"),
+ "C06-G": ("RawDrain drains in place with items = 0 up front", "a leaked Drain of a non-empty table, then any hash lookup: len() is 0 but find/iter_hash still return every old element"),
+ "C10-G": ("clear_no_drop for control arrays >= 8 MiB (2^23 buckets) that are < 1/64 used resets only the groups in use and forgets the trailing mirror bytes", "drain/clear of a sparse table of >= 2^23 buckets with an element in the first 16 buckets, then a wrap-around probe with a matching tag"),
+ "C13-G": ("reserve_rehash_inner fast path for items == 0: allocates a fresh table of capacity max(new_items, full_capacity + 1)", "fill to exactly the capacity, remove everything (tombstones), fill again: the allocation doubles every round"),
+ "C14-G": ("RawVacantEntryMut::insert / RawEntryMut::or_insert reuse the hash cached from the lookup instead of hashing the inserted key", "a vacant raw entry filled with a key other than the probed one: stored under the wrong hash, never found again"),
+ "C19-G": ("ptr::eq identity fast path in HashMap::par_eq (and HashSet::par_eq)", "m.par_eq(&m) on a map holding a value that is not equal to itself"),
+ "C19-H": ("HashSet::par_eq uses par_is_subset alone for sets of >= 4096 elements (length equality lost)", "a receiver of >= 4096 elements that is a strict subset of the argument"),
+ "C16-A": ("unsafe impl Send/Sync for hash_table::IterHash / IterHashMut with T: Send => Send", "IterHash over Send-but-not-Sync elements (Cell) moved to another thread while the table stays behind"),
+ "C16-B": ("IterHashMut<'a, T> wraps IterHash<'a, T> (covariant in T) while still yielding &'a mut T", "variance: a HashTable<&'static str> written through iter_hash_mut with a shorter-lived reference (compiles only with the change)"),
  "C05-E": ("HashSet ^= &HashSet looks the item up without reserving first and turns the 'found' arm of the second, reserving search into unreachable_unchecked", "broken hashing only: a set at capacity holding an element whose hash changed since insertion (found after the rehash that reserve(1) performs), or an Eq that flips between the two comparisons"),
  "C05-F": ("HashSet::get_or_insert_with does a reservation-free lookup first and makes the 'found' arm of find_or_find_insert_slot unreachable_unchecked", "broken Eq only: a call-dependent Eq that answers differently in the two searches"),
  "C07-E": ("HashSet::clone_from clones only the raw table and no longer copies the source's BuildHasher", "HashSet::clone_from (not clone, not HashMap::clone_from) between sets whose hasher instances carry different state, then any lookup or set relation on the destination"),
